@@ -137,4 +137,63 @@ theorem selected_columns_orthonormal {k : ℕ} (V : Matrix (Fin n) (Fin n) K) (h
   · have : σ a ≠ σ b := fun e => h (hσ e)
     simp [Matrix.one_apply, h, this]
 
+/-! ## the jit cache in front of `optimize` (and of every method with `static_argnums=0`)
+
+`jax.jit` with the trial object as a static argument keeps one compiled executable per object *up to the object's
+`__eq__`/`__hash__`*: a later call with an object that compares equal reuses the executable traced for the earlier one.
+Model: the cache is a list of `(object, executable)` pairs, searched with the object's own equality. -/
+section jit
+variable {O X Y : Type}
+
+/-- one call through the cache: reuse the first entry whose object compares equal, otherwise trace and remember -/
+def jitCall (eqv : O → O → Bool) (compile : O → X → Y) (cache : List (O × (X → Y))) (o : O) (x : X) :
+    List (O × (X → Y)) × Y :=
+  match cache.find? (fun en => eqv o en.1) with
+  | some en => (cache, en.2 x)
+  | none => ((o, compile o) :: cache, compile o x)
+
+/-- run a history of calls, collecting the results -/
+def jitRun (eqv : O → O → Bool) (compile : O → X → Y) :
+    List (O × (X → Y)) → List (O × X) → List Y
+  | _, [] => []
+  | cache, (o, x) :: rest =>
+    let r := jitCall eqv compile cache o x
+    r.2 :: jitRun eqv compile r.1 rest
+
+/-- **the cache is transparent for every history of calls** as soon as objects that compare equal are traced to the same
+function — i.e. as soon as `__eq__` looks at every attribute the traced method reads (for `optimize`: `norb`, `nelec`,
+`n_opt_iter`).  Each call then returns what a fresh trace of *its own* object returns. -/
+theorem jit_transparent (eqv : O → O → Bool) (compile : O → X → Y)
+    (sound : ∀ a b, eqv a b = true → compile b = compile a) (calls : List (O × X)) :
+    jitRun eqv compile [] calls = calls.map fun c => compile c.1 c.2 := by
+  suffices h : ∀ cache : List (O × (X → Y)), (∀ en ∈ cache, en.2 = compile en.1) →
+      jitRun eqv compile cache calls = calls.map fun c => compile c.1 c.2 from h [] (by simp)
+  induction calls with
+  | nil => intro cache _; rfl
+  | cons c rest ih =>
+    intro cache hinv
+    obtain ⟨o, x⟩ := c
+    simp only [jitRun, List.map_cons]
+    unfold jitCall
+    cases hf : cache.find? (fun en => eqv o en.1) with
+    | some en =>
+      have hm := List.mem_of_find?_eq_some hf
+      have he := List.find?_some hf
+      simp only
+      rw [ih cache hinv, hinv en hm, sound o en.1 he]
+    | none =>
+      simp only
+      rw [ih ((o, compile o) :: cache) (by
+        intro en hen
+        rcases List.mem_cons.mp hen with rfl | h
+        · rfl
+        · exact hinv en h)]
+
+/-- witness that the hypothesis is needed: objects `(size, iterations)` compared by size only, traced function =
+number of iterations.  The second call (1 iteration) silently returns the first object's 30. -/
+theorem jit_stale_witness :
+    jitRun (fun a b : Nat × Nat => a.1 == b.1) (fun o (_ : Unit) => o.2) [] [((4, 30), ()), ((4, 1), ())] = [30, 30] := by
+  decide
+end jit
+
 end AfqmcVerif.Props.C18
